@@ -246,7 +246,9 @@ func (w *world) getPrices(ctx sdk.Context) string {
 
 func (w *world) showMarkets(ctx sdk.Context) string {
 	var s []string
-	for _, m := range w.tApp.GetPriceFeedKeeper().GetMarkets(ctx) {
+	var stored pftypes.Params
+	kapp.ReadParams(w.tApp, ctx, "pricefeed", &stored)
+	for _, m := range stored.Markets {
 		var os []string
 		for _, o := range m.Oracles {
 			os = append(os, strconv.Itoa(w.oracleIdx(o)))
@@ -367,7 +369,9 @@ func (s *seqState) endBlock() {
 	raw := w.rawStore(s.ctx)
 	curPre := w.curStore(s.ctx)
 	getPre := w.getPrices(s.ctx)
-	markets := k.GetMarkets(s.ctx)
+	var storedParams pftypes.Params
+	kapp.ReadParams(w.tApp, s.ctx, "pricefeed", &storedParams)
+	markets := storedParams.Markets
 	// the per-market routine on a scratch branch of the same pre-state (never written back)
 	var pm []string
 	for _, m := range markets {
